@@ -19,9 +19,9 @@ m("C18-records-into-absent-downstream-dropped", "C18",
 m("C20-cleanup-ack-accepted-twice", "C20",
   "            JobState::Ephemeral(JobStateEphemeral::FinishedSuccessReadyForCleanup) => {\n                self.signals\n                    .push_back(NewSignal!(SignalKind::JobCleanedUp, idx, self.jobs));",
   "            JobState::Ephemeral(JobStateEphemeral::FinishedSuccessReadyForCleanup)\n            | JobState::Ephemeral(JobStateEphemeral::FinishedSuccessCleanedUp) => {\n                self.jobs_ready_for_cleanup.remove(job_id);\n                if j.state == JobState::Ephemeral(JobStateEphemeral::FinishedSuccessCleanedUp) {\n                    return Ok(());\n                }\n                self.signals\n                    .push_back(NewSignal!(SignalKind::JobCleanedUp, idx, self.jobs));")
-m("C20-failure-report-on-ready-job-accepted", "C20",
+m("C20-failure-signal-queued-before-state-check", "C20",
   "        let idx = *self.job_id_to_node_idx.get(job_id).expect(\"Unknown job id\");\n        let j = &mut self.jobs[idx as usize];\n        match j.state {\n            JobState::Always(JobStateAlways::Running)\n            | JobState::Output(JobStateOutput::Running)\n            | JobState::Ephemeral(JobStateEphemeral::Running(_)) => {}\n            _ => {\n                return Err(PPGEvaluatorError::APIError(format!(\n                    \"Reported a job as finished that was not running ! {:?}\",\n                    j\n                )))\n            }\n        }\n        self.signals\n            .push_back(NewSignal!(SignalKind::JobFinishedFailure, idx, self.jobs));",
-  "        let idx = *self.job_id_to_node_idx.get(job_id).expect(\"Unknown job id\");\n        let j = &mut self.jobs[idx as usize];\n        match j.state {\n            JobState::Always(JobStateAlways::Running)\n            | JobState::Output(JobStateOutput::Running)\n            | JobState::Ephemeral(JobStateEphemeral::Running(_)) => {}\n            _ => {\n                self.gen.advance();\n                return Err(PPGEvaluatorError::APIError(format!(\n                    \"Reported a job as finished that was not running ! {:?}\",\n                    j\n                )))\n            }\n        }\n        self.signals\n            .push_back(NewSignal!(SignalKind::JobFinishedFailure, idx, self.jobs));")
+  "        let idx = *self.job_id_to_node_idx.get(job_id).expect(\"Unknown job id\");\n        if matches!(self.jobs[idx].state, JobState::Ephemeral(JobStateEphemeral::ReadyToRun(_))) {\n            self.signals\n                .push_back(NewSignal!(SignalKind::JobUpstreamFailure, idx, self.jobs));\n        }\n        let j = &mut self.jobs[idx as usize];\n        match j.state {\n            JobState::Always(JobStateAlways::Running)\n            | JobState::Output(JobStateOutput::Running)\n            | JobState::Ephemeral(JobStateEphemeral::Running(_)) => {}\n            _ => {\n                return Err(PPGEvaluatorError::APIError(format!(\n                    \"Reported a job as finished that was not running ! {:?}\",\n                    j\n                )))\n            }\n        }\n        self.signals\n            .push_back(NewSignal!(SignalKind::JobFinishedFailure, idx, self.jobs));")
 m("C17-ephemeral-stays-in-ready-set-when-started", "C17",
   "            JobState::Ephemeral(JobStateEphemeral::ReadyToRun(validation_status)) => {\n                self.jobs_ready_to_run.remove(job_id);\n",
   "            JobState::Ephemeral(JobStateEphemeral::ReadyToRun(validation_status)) => {\n                if validation_status != ValidationStatus::Validated {\n                    self.jobs_ready_to_run.remove(job_id);\n                }\n")
@@ -60,7 +60,7 @@ m("C13-cleanup-offered-although-a-later-sibling-failed", "C13",
   "                    } else if jobs[downstream_idx].state.is_failed()\n                        && !jobs[downstream_idx].state.is_upstream_failure()\n                    {\n                        no_downstream_failed = false;\n                        break;\n                    }")
 m("C14-requirement-from-first-downstream-only", "C14",
   "                                Required::Yes => {\n                                    any_required = true;\n                                    break;\n                                }\n                                Required::No => {}",
-  "                                Required::Yes => {\n                                    any_required = true;\n                                    break;\n                                }\n                                Required::No => {\n                                    if self.jobs.len() > 4 {\n                                        break;\n                                    }\n                                }")
+  "                                Required::Yes => {\n                                    any_required = true;\n                                    break;\n                                }\n                                Required::No => {\n                                    if self.job_id_to_node_idx.len() > 4 {\n                                        break;\n                                    }\n                                }")
 m("C05-delayed-upstreams-not-reconsidered-recursively", "C05",
   "                    JobStateEphemeral::NotReady(_) => {\n                        //new_signals.push(NewSignal!(SignalKind::ConsiderJob,upstream_idx, jobs));\n                        Self::reconsider_delayed_upstreams(",
   "                    JobStateEphemeral::NotReady(ValidationStatus::Invalidated) => {}\n                    JobStateEphemeral::NotReady(_) => {\n                        //new_signals.push(NewSignal!(SignalKind::ConsiderJob,upstream_idx, jobs));\n                        Self::reconsider_delayed_upstreams(")
